@@ -220,7 +220,7 @@ prop("C20", [
     S(TABLES, "^TestC20", kind="plain"),
 ], ["internal consistency only, as the property states; agreement with the kernel headers is informational here and enforced by C06 / C12 / C16",
     "the name->type table is read from the generated source file of the working tree (it is not exported)"],
-   nontrivial_classes=["table-errno-displayed", "table-normalization-compound", "table-record-type", "table-record-type-name", "table-errno-number", "table-errno-name", "table-arch", "table-syscall",
+   nontrivial_classes=["table-syscall-displayed", "table-syscall-resolved", "table-errno-displayed", "table-normalization-compound", "table-record-type", "table-record-type-name", "table-errno-number", "table-errno-name", "table-arch", "table-syscall",
                        "table-rule-field", "table-rule-operator", "table-rule-comparison", "table-normalization-syscall", "table-normalization-record-type"])
 
 prop("C11", [
